@@ -152,7 +152,8 @@ def linear_population(rng, thorough=False):
         yield 'Laplacian/affine/' + n, lambda sp=sp: odl.Laplacian(sp, pad_mode='constant', pad_const=-0.5)
         for pad in ['constant', 'symmetric', 'periodic', 'order0', 'order1']:
             yield 'ResizingOperator/grow/%s/%s' % (pad, n), lambda sp=sp, pad=pad: odl.ResizingOperator(sp, ran_shp=tuple(k + 2 for k in sp.shape), pad_mode=pad)
-            yield 'ResizingOperator/shrink/%s/%s' % (pad, n), lambda sp=sp, pad=pad: odl.ResizingOperator(sp, ran_shp=tuple(k - 1 for k in sp.shape), pad_mode=pad)
+            if min(sp.shape) >= 3:   # the inverse of a shrinking operator pads; pad modes need >= 2 remaining points
+                yield 'ResizingOperator/shrink/%s/%s' % (pad, n), lambda sp=sp, pad=pad: odl.ResizingOperator(sp, ran_shp=tuple(k - 1 for k in sp.shape), pad_mode=pad)
         yield 'ResizingOperator/affine/' + n, lambda sp=sp: odl.ResizingOperator(sp, ran_shp=tuple(k + 2 for k in sp.shape), pad_const=1.0)
         yield 'ResizingOperator.adjoint/' + n, lambda sp=sp: odl.ResizingOperator(sp, ran_shp=tuple(k + 2 for k in sp.shape), pad_mode='order0').adjoint
     for shape in [(4,), (5,), (2, 3), (3, 4)]:
@@ -210,12 +211,21 @@ def nonlinear_population(rng, thorough=False):
         yield 'expr/nl:RightScalarMult-with-tmp/' + n, lambda sp=sp: odl.operator.operator.OperatorRightScalarMult(A(), 2.0, sp.element())
     import odl.ufunc_ops as uo
     names = [nm for nm in dir(uo) if not nm.startswith('_') and callable(getattr(uo, nm)) and nm not in ('ufunc_class_factory', 'ufunc_functional_factory', 'find_min_signature', 'dtypes_out', 'derivative_factory', 'gradient_factory') and nm.islower()]
+    i4 = odl.tensor_space(4, dtype='int64')
+    integer_only = ('bitwise_and', 'bitwise_or', 'bitwise_xor', 'invert', 'left_shift', 'right_shift', 'gcd', 'lcm', 'bitwise_count')
     for nm in sorted(names):
         fac = getattr(uo, nm)
+        nin = getattr(np, nm).nin if hasattr(np, nm) else 1
+        nout = getattr(np, nm).nout if hasattr(np, nm) else 1
+        if nm in integer_only:
+            yield 'ufunc_ops.%s/i4' % nm, lambda fac=fac: fac(i4)
+            continue
         yield 'ufunc_ops.%s/r4' % nm, lambda fac=fac: fac(r4)
         if thorough or nm in ('sin', 'exp', 'absolute', 'add', 'modf', 'square'):
             yield 'ufunc_ops.%s/d' % nm, lambda fac=fac: fac(d)
-            yield 'ufunc_ops.%s/field' % nm, lambda fac=fac: fac(odl.RealNumbers())
+            if nin == 1 and nout == 1:
+                # functionals on fields exist for one-in one-out ufuncs only
+                yield 'ufunc_ops.%s/field' % nm, lambda fac=fac: fac(odl.RealNumbers())
     sp2 = odl.uniform_discr([0, 0], [1, 1], (4, 5))
     yield 'LinDeformFixedDisp/linear', lambda: odl.deform.LinDeformFixedDisp(sp2.tangent_bundle.element([0.05 * sp2.one(), -0.03 * sp2.one()]))
     yield 'LinDeformFixedDisp/nearest', lambda: odl.deform.LinDeformFixedDisp(sp2.tangent_bundle.element([0.05 * sp2.one(), -0.03 * sp2.one()]), interp='nearest')
@@ -283,7 +293,7 @@ def functional_recipes(rng, thorough=False):
         yield 'derived/convex_conj/KLCE/' + n, lambda sp=sp: S.KullbackLeiblerCrossEntropy(sp, prior=gp()).convex_conj
         yield 'derived/convex_conj/default(Huber+L2sq)/' + n, lambda sp=sp: (S.L2NormSquared(sp) + S.Huber(sp, 0.3)).convex_conj
         yield 'derived/MoreauEnvelope/L1/' + n, lambda sp=sp: S.MoreauEnvelope(S.L1Norm(sp), 0.7)
-        yield 'derived/BregmanDistance/L2sq/' + n, lambda sp=sp: S.BregmanDistance(S.L2NormSquared(sp), g())
+        yield 'derived/BregmanDistance/L2sq/' + n, lambda sp=sp: (lambda p: S.BregmanDistance(S.L2NormSquared(sp), p, S.L2NormSquared(sp).gradient(p)))(g())
         yield 'derived/InfimalConvolution/' + n, lambda sp=sp: S.InfimalConvolution(S.L2NormSquared(sp), S.L1Norm(sp))
         yield 'derived/product/' + n, lambda sp=sp: S.FunctionalProduct(S.L2NormSquared(sp), S.L2NormSquared(sp) + 1.0)
         yield 'derived/quotient/' + n, lambda sp=sp: S.FunctionalQuotient(S.L2NormSquared(sp), S.L2NormSquared(sp) + 1.0)
@@ -301,12 +311,12 @@ def functional_recipes(rng, thorough=False):
         yield 'L2NormSquared/pspace/' + n, lambda ps=ps: S.L2NormSquared(ps)
         yield 'Huber/pspace/' + n, lambda ps=ps: S.Huber(ps, 0.3)
         yield 'IndicatorBox/pspace/' + n, lambda ps=ps: S.IndicatorBox(ps, -0.5, 1)
-    r23 = odl.ProductSpace(odl.rn(3), 2)
-    yield 'NuclearNorm/r(2x3)', lambda: S.NuclearNorm(odl.ProductSpace(odl.rn(3), 2))
-    yield 'NuclearNorm/outer1/r(2x3)', lambda: S.NuclearNorm(odl.ProductSpace(odl.rn(3), 2), outer_exp=1, singular_vector_exp=1)
-    yield 'NuclearNorm/sv2/r(2x3)', lambda: S.NuclearNorm(odl.ProductSpace(odl.rn(3), 2), outer_exp=2, singular_vector_exp=2)
-    yield 'NuclearNorm/svinf/r(2x3)', lambda: S.NuclearNorm(odl.ProductSpace(odl.rn(3), 2), outer_exp=1, singular_vector_exp=np.inf)
-    yield 'IndicatorNuclearNormUnitBall/r(2x3)', lambda: S.IndicatorNuclearNormUnitBall(odl.ProductSpace(odl.rn(3), 2))
+    NN = lambda: odl.ProductSpace(odl.ProductSpace(odl.rn(3), 2), 2)
+    yield 'NuclearNorm/r(2x3)', lambda: S.NuclearNorm(NN())
+    yield 'NuclearNorm/outer1/r(2x3)', lambda: S.NuclearNorm(NN(), outer_exp=1, singular_vector_exp=1)
+    yield 'NuclearNorm/sv2/r(2x3)', lambda: S.NuclearNorm(NN(), outer_exp=2, singular_vector_exp=2)
+    yield 'NuclearNorm/svinf/r(2x3)', lambda: S.NuclearNorm(NN(), outer_exp=1, singular_vector_exp=np.inf)
+    yield 'IndicatorNuclearNormUnitBall/r(2x3)', lambda: S.IndicatorNuclearNormUnitBall(NN())
     yield 'RosenbrockFunctional/r4', lambda: S.RosenbrockFunctional(odl.rn(4))
     yield 'RosenbrockFunctional/scale/r2', lambda: S.RosenbrockFunctional(odl.rn(2), scale=3.0)
     yield 'NumericalGradient/r4', lambda: odl.solvers.functional.derivatives.NumericalGradient(S.L2NormSquared(r4))
